@@ -40,6 +40,7 @@ type Run struct {
 	t0          time.Time
 	corpus      *Corpus
 	replayCache map[string]*ReplayResult
+	replayOut   map[string]string
 	bounded     []map[string]interface{}
 	extraCov    map[string]interface{}
 }
